@@ -812,7 +812,17 @@ func (pe *programExecutor) Execute(ctx context.Context, s *rhp3.Stream) error {
 	// rollback any changes
 	defer pe.rollback()
 
-	for output := range pe.executeProgram(ctx) {
+	outputs := pe.executeProgram(ctx)
+	// the goroutine executing the instructions spends from the budget: stop it
+	// and wait for it before the deferred rollback refunds and commits the
+	// budget.
+	defer func() {
+		cancel()
+		for range outputs {
+		}
+	}()
+
+	for output := range outputs {
 		start := time.Now()
 		err := s.WriteResponse(&output)
 		pe.log.Debug("wrote program output", zap.Int("outputLen", len(output.Output)), zap.Error(output.Error), zap.Duration("elapsed", time.Since(start)))
